@@ -118,12 +118,17 @@ def main(argv=None):
     log('check %s tier=%s seed=%d runs=%d workers=%d hashseeds=%s' % (
         prop, tier, seed, nruns, workers, hss))
     seeds = batch.run_seeds(seed, nruns, prop)
+    # known findings a fault-enumerating harness may continue past
+    inrun_known = [k for k in batch.load_known()
+                   if k.get('property') == prop and k.get('status') == 'known'
+                   and k.get('id') and k.get('continue_in_run')]
     jobs = []
     for i, s in enumerate(seeds):
         jobs.append({'id': i, 'harness': spec['harness'], 'seed': s,
                      'tier': tier, 'hashseed': hss[i % len(hss)],
                      'cpu_s': cpu_s, 'wall_s': wall_s,
                      'config_override': dict(spec.get('config', {}), prop=prop),
+                     'known': inrun_known,
                      'want_ops': i < 3})
     pool = batch.Pool(workers, hss)
     rc = 0
@@ -226,6 +231,22 @@ def main(argv=None):
                              'replay': os.path.relpath(path, VERIF),
                              'ops': len(rp['ops']),
                              'minimised_from': rp['minimised_from']})
+        # known findings met (and continued past) inside runs
+        khits = {}
+        for r in ok:
+            for kid, h in ((r.get('stats') or {}).get('known_hits') or {}).items():
+                e = khits.setdefault(kid, {'n': 0, 'runs': 0, 'example': h.get('example')})
+                e['n'] += h.get('n', 0)
+                e['runs'] += 1
+        for kid, e in sorted(khits.items()):
+            kf = [k for k in known if k.get('id') == kid]
+            log('KNOWN-FINDING: property=%s %s [%d occurrences in %d runs; e.g. %s]' % (
+                prop, kf[0].get('what', kid) if kf else kid, e['n'], e['runs'],
+                e['example']))
+            reported.append({'sig': (kf[0].get('signature') if kf else kid),
+                             'runs': e['runs'], 'known': True, 'occurrences': e['n'],
+                             'replay': None, 'ops': None, 'minimised_from': None})
+            known_hit[kid] = True
         if bad:
             for r in bad[:5]:
                 log('HARNESS-ERROR run seed=%s status=%s %s' % (
